@@ -52,6 +52,8 @@ CloserRank(e, m) == e[3] < m[3]
 
 Near(a, b, rel) == Abs(a - b) <= 1 + (b \div rel)
 
+\* (thickness is stored as float32: 1e-5 relative + one unit is ten times what the double-precision path shows, also for
+\* sheets posed 1e6 voxels from the origin)
 \* thickness of source s in event e (x1e5), 0 when s is not paired there
 ThickOf(e, s) == LET ks == { k \in DOMAIN e.out : e.out[k].s = s }
                  IN  IF ks = {} THEN 0 ELSE e.out[CHOOSE k \in ks : TRUE].got
@@ -68,7 +70,7 @@ Measurement(e) ==
         ELSE IF \E o \in O : ~o.rg \/ o.got > e.maxs + 1 + (e.maxs \div 10000) THEN "C20_WithinMaxThickness"
         ELSE IF \E o \in O : ~o.cn THEN "C20_WithinCone"
         ELSE IF ~Th!C20_Admissible(P, A) THEN "TRACE_INCONSISTENT"   \* all flags hold, yet not logged as admissible
-        ELSE IF \E o \in O : ~Near(o.got, o.exp, 10000) THEN "C20_ThicknessIsDistance"
+        ELSE IF \E o \in O : ~Near(o.got, o.exp, 100000) THEN "C20_ThicknessIsDistance"
         ELSE IF ~Th!C20_Maximal(P, A) THEN "C20_Maximal"
         ELSE IF ~Th!C20_NoCloserFree(P, A, CloserRank) THEN "C20_NoCloserFree"
         ELSE "none"
